@@ -88,6 +88,16 @@ CLAIMS = {
    note=NOTE_COMMON + "NOT decided (stated): the decoupling rate (v/M)^2 of the genuine BSM terms (an asymptotic statement outside contracts); the chain model -> y_f^h = m_f/v at cos(beta-alpha)=0 "
         "uses C09's getter contracts; ring normalisation (sympy) is in the trusted base for the two rational-function identities.",
    technique="relational lemmas: symbolic execution of extracted kernels + z3 NRA / ring normalisation (sympy)", design='5 C10'),
+ 'C11': dict(
+   text="Contracts on the THDM two-loop bosonic kernels and all their helpers (YF1, YFZ, YFW, YF2, YF3, T0, T1, dxlog, TX, T4-T6, T9, T10, fb, Fm0, Fmp, amu2L_B_nonYuk, "
+        "amu2L_B_Yuk, amu2L_B_EWadd): on every path and for ALL mass ratios in [1e-6,1e4] with 3/5 < cw2 < 19/20 every denominator is non-zero and every logarithm/square root is in its "
+        "domain -- each shift guard removes the pole it is meant for and no unguarded pole remains (with and, per function, without the assumption that two removable singularities do not "
+        "coincide); helpers are called inside their preconditions (modular); the guard in amu2L_B_EWadd only moves the argument (the unguarded temporary is dead downstream); dxlog's series "
+        "has the Taylor coefficients of its definition.  Counterexamples are replayed on the real code along the property's one-parameter path with the property's own 1%-band criterion.",
+   note=NOTE_COMMON + "NOT decided: the 1% band itself (size of the cancellations between pole terms after a shift of 1e-8) and everything about rounding; the fermionic two-loop, the one-loop THDM and "
+        "the MSSM functions are covered for this property only through the loop-function contracts of C01/C02 (equal-argument branches).  T7/T8 (complex square roots) only through their call-site preconditions. "
+        "Four fixed findings (Kaellen zeros, m_h = 2 m_W, guard onto the pole at m_h = m_Z, guard order in YF3).",
+   technique="symbolic execution of the extracted kernels; side obligations (denominator != 0, log/sqrt domains) discharged by z3 NRA on all paths; modular call-site preconditions; counterexample replay on the real code", design='5 C11'),
  'C13': dict(
    text="Contracts on the SLHA reader: every process_*_tuple(object, key, value) has exactly the documented effect (README tables: the documented member gets the documented function of "
         "value, every other member unchanged; nothing changes for undocumented keys, swept over -2..59 and the PDG codes); convert_to<T>(token) returns only if the WHOLE token was "
